@@ -48,7 +48,9 @@ SzxShapes1 == [fmt : {"szx"}, magic : {"ok", "bad", "nonutf8", "short"}, mid : {
 SzxShapes2 == [fmt : {"szx"}, magic : {"ok"}, mid : {1, 2},
                chunks : {<<[id |-> i, decl |-> "exact", var |-> 0], c>> : i \in {"Z80R", "RAMP"}, c \in SzxChunks}]
 TapBlocks == [decl : {0, 1, 2, 19, 300, 65535}, have : {"all", "none", "one", "half"}]
-TapShapes == [fmt : {"tap"}, blocks : {<<>>} \cup {<<b>> : b \in TapBlocks} \cup {<<[decl |-> 19, have |-> "all"], b>> : b \in TapBlocks},
+\* (a good block first - a header, or one longer than the player's 128-byte window - then anything)
+TapShapes == [fmt : {"tap"}, blocks : {<<>>} \cup {<<b>> : b \in TapBlocks} \cup {<<[decl |-> 19, have |-> "all"], b>> : b \in TapBlocks}
+                                     \cup {<<[decl |-> 300, have |-> "all"], b>> : b \in TapBlocks},
               tail : {0, 1}]
 ScrShapes == [fmt : {"scr"}, size : {0, 1, 6911, 6912, 6913, 49179}]
 RomShapes == [fmt : {"rom"}, pages : {0, 1, 2, 3}, last : {0, 1, 16383, 16384}]
